@@ -7,7 +7,7 @@ NEEDS = ("analyze",)
 LEAN_TARGETS = ["EtkVerif.Props.C20"]
 RULE = ("structured programs (1-6 blocks; jumps to real jumpdests, non-jumpdest offsets, computed and symbolic targets; "
         "unreachable blocks; truncated trailing push), jumpi whose target IS the following block (one edge for both routes) with constant / "
-        "computed / input conditions, and uniform random byte strings, through the real ecfg pipeline; the "
+        "computed / input conditions, uniform random byte strings, and n/2 loop programs (2-5 blocks with exact targets: back edges into a block that is also fallen into, self-loops, forward jumps), through the real ecfg pipeline; the "
         "initial graph (nodes and edge multiset from the DOT text) must equal the model's, and the structural predicates "
         "of the property are evaluated on both real renderings. non-trivial = at least 2 blocks and one jump")
 EXHAUSTIVE = {"quick": False, "thorough": False}
@@ -26,6 +26,8 @@ def cases(rng, tier):
         b = bytes(rng.randrange(256) for _ in range(rng.choice([0, 1, 3, 8, 20])))
         b = bytes(x if x != 0x0a else 0x01 for x in b)
         cs.append({"line": f"cfg {C.hexs(b)}", "exe": "analyze", "tags": ["bytes"], "timeout": 1800})
+    for _ in range(n // 2):
+        cs.append({"line": f"cfg {C.hexs(G.gen_loops(rng))}", "exe": "analyze", "tags": ["loops"], "timeout": 1800})
     return cs
 
 
